@@ -226,6 +226,15 @@ func genEdits(rng *rand.Rand) *specs.ContainerEdits {
 				h.Args, h.Env, h.Timeout = []string{"hook", fmt.Sprint(i)}, []string{"H=1"}, intp(i)
 			}
 			e.Hooks = append(e.Hooks, h)
+			if rng.Intn(3) == 0 {
+				// the very same hook once more (two devices of one vendor bring it), and hooks the OCI spec may hold already
+				dup := *h
+				e.Hooks = append(e.Hooks, &dup)
+			}
+		}
+		if rng.Intn(3) == 0 {
+			e.Hooks = append(e.Hooks, &specs.Hook{HookName: "prestart", Path: "/bin/pre"}, &specs.Hook{HookName: "poststop", Path: "/bin/stop", Args: []string{"stop"}},
+				&specs.Hook{HookName: "createRuntime", Path: "/bin/cr", Timeout: intp(3)})
 		}
 		if rng.Intn(25) == 0 {
 			e.Hooks = append(e.Hooks, &specs.Hook{HookName: "bogus", Path: "/x"})
